@@ -1,5 +1,14 @@
 package main
 
+import (
+	"fmt"
+	"go/token"
+	"go/types"
+	"strings"
+
+	"golang.org/x/tools/go/ssa"
+)
+
 type StructResult struct {
 	Name   string
 	OK     bool
@@ -18,3 +27,292 @@ func runStructural(P *Program, prop string) []StructResult {
 var structuralChecks []func(P *Program, prop string) []StructResult
 
 func solveLemmas(P *Program, prop string, budget, seed int) []*Result { return nil }
+
+// frozen: `frozen a, b, c` on a function's contract: the named parameters are captured by closures (as cells) and must
+// never be assigned after the function's entry, neither by the function nor by any of its closures: what a closure
+// reads later is the value the function was called with.
+func init() {
+	structuralChecks = append(structuralChecks, checkFrozen)
+}
+
+func checkFrozen(P *Program, prop string) []StructResult {
+	var out []StructResult
+	for _, key := range P.FuncOrd {
+		d := P.Funcs[key]
+		if !hasProp(d.Props(), prop) {
+			continue
+		}
+		for _, c := range d.Get("frozen") {
+			fn := P.fnByKey[key]
+			if fn == nil {
+				continue
+			}
+			for _, name := range strings.Split(c.Text, ",") {
+				name = strings.TrimSpace(name)
+				res := StructResult{Name: key + ":frozen:" + name, OK: true}
+				// the parameter and the cell it is spilled into
+				var param *ssa.Parameter
+				for _, p := range fn.Params {
+					if p.Name() == name {
+						param = p
+					}
+				}
+				if param == nil {
+					res.OK, res.Detail = false, "no such parameter"
+					out = append(out, res)
+					continue
+				}
+				var cell *ssa.Alloc
+				if param.Referrers() != nil {
+					for _, r := range *param.Referrers() {
+						if st, ok := r.(*ssa.Store); ok && st.Val == param {
+							if a, ok := st.Addr.(*ssa.Alloc); ok {
+								cell = a
+							}
+						}
+					}
+				}
+				if cell == nil {
+					res.Detail = "parameter is not captured by reference (never reassigned by construction)"
+					out = append(out, res)
+					continue
+				}
+				n := countStores(cell, map[ssa.Value]bool{})
+				if n != 1 {
+					res.OK = false
+					res.Detail = fmt.Sprintf("the captured variable %s is assigned %d time(s) besides its initialisation (in %s or one of its closures)", name, n-1, key)
+				} else {
+					res.Detail = "one store (the parameter spill), no assignment in any closure"
+				}
+				out = append(out, res)
+			}
+		}
+	}
+	return out
+}
+
+// countStores counts stores through an address, following closure captures
+func countStores(v ssa.Value, seen map[ssa.Value]bool) int {
+	if seen[v] || v.Referrers() == nil {
+		return 0
+	}
+	seen[v] = true
+	n := 0
+	for _, r := range *v.Referrers() {
+		switch x := r.(type) {
+		case *ssa.Store:
+			if x.Addr == v {
+				n++
+			}
+		case *ssa.MakeClosure:
+			fn := x.Fn.(*ssa.Function)
+			for i, b := range x.Bindings {
+				if b == v {
+					n += countStores(fn.FreeVars[i], seen)
+				}
+			}
+		}
+	}
+	return n
+}
+
+// ---------------------------------------------------------------- ctxflow (C13)
+// Every call of (*Promise).Force must receive a context that is data-dependent on a context.Context parameter of the
+// enclosing function or of a function whose closure it is. Exceptions are declared in the contract file:
+//   //@ global ctxflow-exempt <function key> <reason>
+
+func init() { structuralChecks = append(structuralChecks, checkCtxFlow) }
+
+func isCtxType(t types.Type) bool {
+	n, ok := t.(*types.Named)
+	return ok && n.Obj().Name() == "Context" && n.Obj().Pkg() != nil && n.Obj().Pkg().Path() == "context"
+}
+
+func ctxDerived(v ssa.Value, seen map[ssa.Value]bool, depth int) (bool, string) {
+	if seen[v] {
+		return true, ""
+	}
+	seen[v] = true
+	if depth > 12 {
+		return false, "derivation too deep"
+	}
+	switch x := v.(type) {
+	case *ssa.Parameter:
+		if isCtxType(x.Type()) {
+			return true, ""
+		}
+		return false, "parameter " + x.Name() + " is not a context"
+	case *ssa.FreeVar:
+		// captured variable: find the binding in the parent's MakeClosure
+		fn := x.Parent()
+		idx := -1
+		for i, fv := range fn.FreeVars {
+			if fv == x {
+				idx = i
+			}
+		}
+		par := fn.Parent()
+		if par == nil || idx < 0 {
+			return false, "free variable without parent"
+		}
+		found := false
+		for _, b := range par.Blocks {
+			for _, in := range b.Instrs {
+				if mc, ok := in.(*ssa.MakeClosure); ok && mc.Fn == fn {
+					found = true
+					if ok, why := ctxDerived(mc.Bindings[idx], seen, depth+1); !ok {
+						return false, why
+					}
+				}
+			}
+		}
+		if !found {
+			return false, "closure creation not found"
+		}
+		return true, ""
+	case *ssa.UnOp: // load of a cell: every store into the cell must be derived
+		if x.Op != token.MUL {
+			return false, "unexpected operation"
+		}
+		return ctxCell(x.X, seen, depth+1)
+	case *ssa.Phi:
+		for _, e := range x.Edges {
+			if ok, why := ctxDerived(e, seen, depth+1); !ok {
+				return false, why
+			}
+		}
+		return true, ""
+	case *ssa.Extract:
+		return ctxDerived(x.Tuple, seen, depth+1)
+	case *ssa.Call:
+		if callee := x.Call.StaticCallee(); callee != nil && callee.Pkg != nil && callee.Pkg.Pkg.Path() == "context" {
+			switch callee.Name() {
+			case "WithCancel", "WithTimeout", "WithDeadline", "WithValue", "WithCancelCause", "WithoutCancel":
+				if callee.Name() == "WithoutCancel" {
+					return false, "context.WithoutCancel drops cancellation"
+				}
+				return ctxDerived(x.Call.Args[0], seen, depth+1)
+			case "Background", "TODO":
+				return false, "context." + callee.Name() + "() is not derived from the caller's context"
+			}
+		}
+		return false, "result of a call that is not a context constructor"
+	case *ssa.ChangeInterface:
+		return ctxDerived(x.X, seen, depth+1)
+	case *ssa.MakeInterface:
+		return ctxDerived(x.X, seen, depth+1)
+	}
+	return false, fmt.Sprintf("value %s (%T) is not derived from a context parameter", v.Name(), v)
+}
+
+func ctxCell(addr ssa.Value, seen map[ssa.Value]bool, depth int) (bool, string) {
+	switch a := addr.(type) {
+	case *ssa.Alloc, *ssa.FreeVar:
+		// all stores into the cell (here and in closures sharing it)
+		root := addr
+		if fv, ok := a.(*ssa.FreeVar); ok {
+			// resolve to the binding in the parent
+			fn := fv.Parent()
+			idx := -1
+			for i, f := range fn.FreeVars {
+				if f == fv {
+					idx = i
+				}
+			}
+			par := fn.Parent()
+			if par == nil || idx < 0 {
+				return false, "free variable without parent"
+			}
+			for _, b := range par.Blocks {
+				for _, in := range b.Instrs {
+					if mc, ok := in.(*ssa.MakeClosure); ok && mc.Fn == fn {
+						return ctxCell(mc.Bindings[idx], seen, depth+1)
+					}
+				}
+			}
+			return false, "closure creation not found"
+		}
+		stores := collectStores(root, map[ssa.Value]bool{})
+		if len(stores) == 0 {
+			return false, "cell is never assigned"
+		}
+		for _, s := range stores {
+			if ok, why := ctxDerived(s.Val, seen, depth+1); !ok {
+				return false, why
+			}
+		}
+		return true, ""
+	}
+	return false, "context loaded from memory that is not a local variable"
+}
+
+func collectStores(v ssa.Value, seen map[ssa.Value]bool) []*ssa.Store {
+	if seen[v] || v.Referrers() == nil {
+		return nil
+	}
+	seen[v] = true
+	var out []*ssa.Store
+	for _, r := range *v.Referrers() {
+		switch x := r.(type) {
+		case *ssa.Store:
+			if x.Addr == v {
+				out = append(out, x)
+			}
+		case *ssa.MakeClosure:
+			fn := x.Fn.(*ssa.Function)
+			for i, b := range x.Bindings {
+				if b == v {
+					out = append(out, collectStores(fn.FreeVars[i], seen)...)
+				}
+			}
+		}
+	}
+	return out
+}
+
+func checkCtxFlow(P *Program, prop string) []StructResult {
+	if prop != "C13" {
+		return nil
+	}
+	exempt := map[string]string{}
+	for _, d := range P.Decls {
+		if d.Kind == "global" && d.Name == "ctxflow-exempt" {
+			f := strings.Fields(d.Attr)
+			if len(f) > 0 {
+				exempt[f[0]] = strings.TrimSpace(strings.TrimPrefix(d.Attr, f[0]))
+			}
+		}
+	}
+	var out []StructResult
+	count := map[string]int{}
+	for _, fn := range P.allFuncs {
+		for _, b := range fn.Blocks {
+			for _, in := range b.Instrs {
+				call, ok := in.(ssa.CallInstruction)
+				if !ok {
+					continue
+				}
+				callee := call.Common().StaticCallee()
+				if callee == nil || fnKey(callee) != "engine.(*Promise).Force" {
+					continue
+				}
+				key := fnKey(fn)
+				count[key]++
+				name := fmt.Sprintf("%s:ctxflow:%d", key, count[key])
+				if why, ok := exempt[key]; ok {
+					out = append(out, StructResult{Name: name, OK: true, Detail: "exempt: " + why})
+					continue
+				}
+				ok2, why := ctxDerived(call.Common().Args[1], map[ssa.Value]bool{}, 0)
+				res := StructResult{Name: name, OK: ok2, Detail: why}
+				if ok2 {
+					res.Detail = "the context argument derives from a context parameter"
+				} else {
+					res.Detail = "the context passed to Force is not derived from the caller's context: " + why + " (" + posOf(fn, in.Pos()) + ")"
+				}
+				out = append(out, res)
+			}
+		}
+	}
+	return out
+}
